@@ -349,3 +349,78 @@ Proof.
   destruct C as (C & _). split; [exact C|].
   destruct fs; cbn; split; intro; try reflexivity; try lia; discriminate.
 Qed.
+
+(* more fuel does not change a final verdict of the runner either *)
+Lemma run_mono : forall n r v, run n r = v -> v <> VOutOfFuel -> forall m, (n <= m)%nat -> run m r = v.
+Proof.
+  induction n as [|n IH]; intros r v H NF m Hm; [cbn in H; congruence|].
+  destruct m as [|m]; [lia|]. cbn [run] in *.
+  destruct (execute_instruction r); try exact H.
+  apply IH with (m := m) in H; [exact H|exact NF|lia].
+Qed.
+
+(* ---- the runner before fix 900f3f8: an element is removed from the list when it fires (F-C18a) ---- *)
+Definition execute_instruction_removing (r : runner) : execute_result :=
+  let c := r_cpu r in
+  let pc := rPC c in
+  let active := filter (fun e => element_pc16 e =? pc) (test_elements r) in
+  let rest := filter (fun e => negb (element_pc16 e =? pc)) (test_elements r) in
+  match fire_traces c pc active with
+  | None => ExecPanic
+  | Some new_traces =>
+      let traces := formatted_traces r ++ new_traces in
+      match fire_assertions c pc active with
+      | FPanic => ExecPanic
+      | FFail a => TestFailed (mkFailure (failure_message a) (a_loc a) c traces)
+      | FNone =>
+          if rd (rM c) pc =? end_of_test_opcode then TestSuccess (mkRunner rest c traces)
+          else match exec c with
+               | Some c' => Running (mkRunner rest c' traces)
+               | None => OutOfSubset
+               end
+      end
+  end.
+Fixpoint run_removing (fuel : nat) (r : runner) : verdict :=
+  match fuel with
+  | O => VOutOfFuel
+  | S f =>
+      match execute_instruction_removing r with
+      | Running r' => run_removing f r'
+      | TestFailed fl => Failed fl
+      | TestSuccess _ => Passed
+      | ExecPanic => VPanic
+      | OutOfSubset => VOutOfSubset
+      end
+  end.
+
+(* witness 1 (corpus/C18/loop_assert.asm): ldx #0 / l: inx / .assert cpu.x < 2 / cpx #3 / bne l / brk *)
+Definition t_x : text := [120]%N.
+Definition cpu_x_lt_2 : expr :=
+  EBin Lt (EId [[99; 112; 117]%N; t_x] None false false) (ENum 10 [50]%N false false).
+Definition w1_image : list N := [162; 0; 232; 224; 3; 208; 251; 0]%N.
+Definition w1_elements : list test_element :=
+  [Assertion (mkAssertion cpu_x_lt_2 [] (mkSnap 49155 [] []) None (mkLoc 4 13))].
+Definition w1_cpu : cpu := cpu_init 49152 (load_program 49152 w1_image).
+
+(* witness 2 (corpus/C18/sub_twice.asm): lda #1 / jsr f / lda #0 / jsr f / brk / f: .assert cpu.a == 1 / rts *)
+Definition cpu_a_eq_1 : expr :=
+  EBin Eq (EId [[99; 112; 117]%N; [97]%N] None false false) (ENum 10 [49]%N false false).
+Definition w2_image : list N := [169; 1; 32; 11; 192; 169; 0; 32; 11; 192; 0; 96]%N.
+Definition w2_elements : list test_element :=
+  [Assertion (mkAssertion cpu_a_eq_1 [] (mkSnap 49163 [] []) None (mkLoc 7 13))].
+Definition w2_cpu : cpu := cpu_init 49152 (load_program 49152 w2_image).
+
+Lemma remove_on_fire_refuted :
+  (run_removing 20 (runner0 w1_elements w1_cpu) = Passed /\
+   exists m cf, spec_run 20 w1_elements w1_cpu = SFail (mkLoc 4 13) m cf /\ rX cf = 2) /\
+  (run_removing 20 (runner0 w2_elements w2_cpu) = Passed /\
+   exists m cf, spec_run 20 w2_elements w2_cpu = SFail (mkLoc 7 13) m cf /\ rA cf = 0).
+Proof.
+  split; (split; [vm_compute; reflexivity|]); eexists; eexists; (split; [vm_compute; reflexivity|reflexivity]).
+Qed.
+
+(* and the repaired runner reports both *)
+Lemma witnesses_now_fail :
+  (exists f, run 20 (runner0 w1_elements w1_cpu) = Failed f /\ f_loc f = mkLoc 4 13 /\ rX (f_cpu f) = 2) /\
+  (exists f, run 20 (runner0 w2_elements w2_cpu) = Failed f /\ f_loc f = mkLoc 7 13 /\ rA (f_cpu f) = 0).
+Proof. split; eexists; (split; [vm_compute; reflexivity|split; reflexivity]). Qed.
